@@ -13,6 +13,10 @@ empty !dd(int k) { write('d'); !dz(0); !dz(k); }
 empty !dr(int k) { if (k > 0) { !dr(k - 1); } else { !truth_is_defeat(n == 99); } }
 int !dv(int k) { if (k == 1) { !is_defeat(); } return k + 1; }
 int side(int k) { n += 1; return k; }
+empty !dt(int k) { write('c'); if (k == 1) { !truth_is_defeat(true); } }
+empty !dc(int k) { write('c'); if (k == 1) { !truth_is_defeat(2 + 2 == 4 and not false); } !truth_is_defeat(false); }
+empty !dn(int k) { write('c'); !truth_is_defeat(not not (k == 1)); !truth_is_defeat(not (k != 1)); }
+empty !dl(int k) { for (int i = 0; i < 3; i += 1) { if (i == 2 and k == 1) { !is_defeat(); } if (i == 0) { continue; } } }
 '''
 
 CONSTRUCTS = [
@@ -33,6 +37,11 @@ CONSTRUCTS = [
     ('dcall_preemptive_while', "!dw(x);"),
     ('dcall_nested', "!dd(x);"),
     ('dcall_recursive', "!dr(x);"),
+    ('dcall_const_true', "!dt(x);"),
+    ('dcall_const_folded', "!dc(x);"),
+    ('dcall_double_not', "!dn(x);"),
+    ('dcall_loop_defeat', "!dl(x);"),
+    ('tid_double_not', "!truth_is_defeat(not not (x == 1));"),
     ('dcall_value', "write(!dv(x));"),
     ('dcall_value_in_expr', "int t = !dv(x) + side(2); write(t);"),
     ('preempt_then_defeat', "preempt { write('P'); x = 0; } !truth_is_defeat(x == 1);"),
